@@ -489,7 +489,11 @@ func getClientCall(c *core.Ctx, a *epAnchors, rule string) *clientCall {
 	}
 	for _, call := range core.Calls(fn) {
 		x := call.Common()
-		if x.IsInvoke() && x.Method.Name() == "Send" && core.TypeIs(x.Value.Type(), "bus/net", "EndPoint") {
+		isSend := x.IsInvoke() && x.Method.Name() == "Send" && core.TypeIs(x.Value.Type(), "bus/net", "EndPoint")
+		if !isSend && !x.IsInvoke() && isSendForwarder(c, x.StaticCallee()) {
+			isSend = true // c.send(msg): a private method that only forwards to EndPoint.Send
+		}
+		if isSend {
 			if cc.send == nil || core.Dominates(call.(ssa.Instruction), cc.send.(ssa.Instruction)) {
 				cc.send = call
 			}
@@ -966,4 +970,46 @@ func ruleSubscriptionsClose(c *core.Ctx, a *epAnchors) {
 func callReturnsValue(call ssa.CallInstruction, v ssa.Value) bool {
 	cv, ok := call.(*ssa.Call)
 	return ok && core.Canon(v) == ssa.Value(cv)
+}
+
+// isSendForwarder: f is a private function of the repository whose whole body hands its
+// message to EndPoint.Send once and returns that result.
+func isSendForwarder(c *core.Ctx, f *ssa.Function) bool {
+	if f == nil || len(f.Blocks) == 0 || len(f.Blocks) > 2 || !isPrivateHelper(c, f) {
+		return false
+	}
+	var send ssa.CallInstruction
+	for _, call := range core.Calls(f) {
+		x := call.Common()
+		if x.IsInvoke() && x.Method.Name() == "Send" && core.TypeIs(x.Value.Type(), "bus/net", "EndPoint") {
+			if send != nil {
+				return false
+			}
+			send = call
+			continue
+		}
+		return false // anything else done here is not forwarding
+	}
+	if send == nil {
+		return false
+	}
+	for _, r := range core.Returns(f) {
+		if len(r.Results) != 1 {
+			return false
+		}
+		if cr, _ := core.CallResult(core.RetVal(r, 0)); cr == nil || ssa.CallInstruction(cr) != send {
+			return false
+		}
+	}
+	return true
+}
+
+// sentMessageArg: the message handed to the send — the argument of EndPoint.Send, or the
+// last argument of a forwarder method (whose first is its receiver).
+func sentMessageArg(send ssa.CallInstruction) ssa.Value {
+	args := send.Common().Args
+	if send.Common().IsInvoke() || len(args) == 1 {
+		return args[0]
+	}
+	return args[len(args)-1]
 }
